@@ -54,7 +54,7 @@ const (
 // ---------- scripts ----------
 
 type c8Op struct {
-	kind   byte // 'R' register, 'M' message from the peer, 'C' cancel
+	kind   byte // 'R' register, 'M' message from the peer, 'C' cancel, 'X' cancel whose deregistration exchange fails
 	tok    []byte
 	piggy  bool   // R: first response is piggybacked on the ACK of the request (otherwise the request is ACKed at once)
 	code   int    // M: code; C: code of the answer to the deregistration
@@ -63,7 +63,9 @@ type c8Op struct {
 	con    bool   // M: confirmable
 	dt     int64  // M: virtual milliseconds since the previous message
 	tag    int    // M: payload tag
-	id     int    // C: registration
+	id     int    // C, X: registration
+	how    byte   // X: 'c' context cancelled after the request was written, 'a' same after the request was ACKed (empty ACK),
+	//               'e' context already cancelled when Cancel is called, 'w' the write of the request fails
 }
 
 type c8Script struct {
@@ -106,6 +108,8 @@ func (s c8Script) String() string {
 			fmt.Fprintf(&sb, " M%s/%d/%s/%s/%d/%d", hex.EncodeToString(o.tok), o.code, ob, t, o.dt, o.tag)
 		case 'C':
 			fmt.Fprintf(&sb, " C%d/%d", o.id, o.code)
+		case 'X':
+			fmt.Fprintf(&sb, " X%d/%c", o.id, o.how)
 		}
 	}
 	return sb.String()
@@ -140,6 +144,11 @@ func parseC8Script(s string) (c8Script, error) {
 			sc.ops = append(sc.ops, o)
 		case 'C':
 			sc.ops = append(sc.ops, c8Op{kind: 'C', id: atoi(p[0]), code: atoi(p[1])})
+		case 'X':
+			if len(p) != 2 || len(p[1]) != 1 {
+				return sc, fmt.Errorf("bad failing-cancel op %q", w)
+			}
+			sc.ops = append(sc.ops, c8Op{kind: 'X', id: atoi(p[0]), how: p[1][0]})
 		default:
 			return sc, fmt.Errorf("bad op %q", w)
 		}
@@ -177,6 +186,7 @@ type c8Session struct {
 	out    chan []byte
 	mu     sync.Mutex
 	onCl   []func()
+	fail   bool // WriteMessage reports an error (nothing is written)
 }
 
 func newC8Session() *c8Session {
@@ -203,7 +213,18 @@ func (s *c8Session) LocalAddr() net.Addr {
 	return &net.UDPAddr{IP: net.IPv4(127, 0, 0, 1), Port: 40000}
 }
 func (s *c8Session) NetConn() net.Conn { return nil }
+func (s *c8Session) setFail(v bool) {
+	s.mu.Lock()
+	s.fail = v
+	s.mu.Unlock()
+}
 func (s *c8Session) WriteMessage(req *pool.Message) error {
+	s.mu.Lock()
+	fail := s.fail
+	s.mu.Unlock()
+	if fail {
+		return errors.New("network is unreachable")
+	}
 	data, err := req.MarshalWithEncoder(coder.DefaultCoder)
 	if err != nil {
 		return err
@@ -286,6 +307,7 @@ type c8Run struct {
 	fake       *c8Fake
 	hd         *observation.Handler[*c8Fake]
 	cancelCode int
+	doErr      error // direct mode: the deregistration exchange fails with this error
 	doCalls    int
 	bad        string // set when the implementation hung / panicked
 	features   map[string]bool
@@ -339,6 +361,9 @@ func (r *c8Run) setup() {
 			func(_ *responsewriter.ResponseWriter[*c8Fake], m *pool.Message) { r.logNext(m) },
 			func(req *pool.Message) (*pool.Message, error) {
 				r.doCalls++
+				if r.doErr != nil {
+					return nil, r.doErr
+				}
 				resp := r.fake.pl.AcquireMessage(req.Context())
 				resp.SetCode(codes.Code(r.cancelCode))
 				resp.SetToken(req.Token())
@@ -821,6 +846,108 @@ func (r *c8Run) doCancel(op c8Op) ([]string, bool) {
 	return append(extra, fmt.Sprintf("CanRet %d %d", op.id, cls)), true
 }
 
+// c8CanClass: how Cancel returned. nil: 0 nothing was sent / 1 deregistered; error: 2 the answer had an
+// unexpected code / 3 the exchange failed
+func c8CanClass(err error, sent bool) int {
+	switch {
+	case err == nil && !sent:
+		return 0
+	case err == nil:
+		return 1
+	case strings.Contains(err.Error(), "unexpected return code"):
+		return 2
+	}
+	return 3
+}
+
+// doCancelErr: Cancel whose deregistration request gets no answer: the exchange ends with an error
+// (context cancelled while waiting for the ACK / for the response, context done beforehand, write error).
+// Every step waits for a witness: the request on the wire, the return of Cancel.
+func (r *c8Run) doCancelErr(op c8Op) ([]string, bool) {
+	if op.id < 0 || op.id >= len(r.regs) || r.regs[op.id].obs == nil {
+		return nil, false
+	}
+	g := r.regs[op.id]
+	ctx, cancel := context.WithCancel(context.Background())
+	defer cancel()
+	if !r.sc.wire {
+		switch op.how {
+		case 'w':
+			r.doErr = errors.New("cannot write request: network is unreachable")
+		case 'e':
+			r.doErr = context.Canceled
+		default:
+			r.doErr = context.DeadlineExceeded
+		}
+		before := r.doCalls
+		err := g.obs.Cancel(ctx)
+		r.doErr = nil
+		return []string{fmt.Sprintf("CanRet %d %d", op.id, c8CanClass(err, r.doCalls > before))}, true
+	}
+	how := op.how
+	if how == 'w' && r.sc.tcp {
+		how = 'c' // a write on the pipe cannot be made to fail without closing the connection
+	}
+	switch how {
+	case 'e':
+		cancel()
+	case 'w':
+		r.sess.setFail(true)
+		defer r.sess.setFail(false)
+	}
+	cdone := make(chan error, 1)
+	go func() {
+		defer func() {
+			if recover() != nil {
+				cdone <- errors.New("panic")
+			}
+		}()
+		cdone <- g.obs.Cancel(ctx)
+	}()
+	sent := false
+	var err error
+	returned := false
+	if how == 'c' || how == 'a' {
+		select {
+		case d := <-r.out:
+			sent = true
+			req, e := r.decode(d)
+			if e != nil {
+				r.bad = "deregistration does not decode"
+				return nil, true
+			}
+			ob, e := req.Observe()
+			if e != nil || ob != 1 || !bytes.Equal(req.Token(), g.tok) || req.Code() != codes.GET {
+				r.bad = "deregistration is not GET+Observe:1 with the observation's token"
+			}
+			if how == 'a' && !r.sc.tcp {
+				// the request is acknowledged (a separate response is promised) but no response follows
+				r.inject(r.frame(message.Acknowledgement, req.MessageID(), nil, 0, false, nil, 0, false))
+			}
+			cancel()
+		case err = <-cdone:
+			returned = true
+		case <-time.After(c8Timeout):
+			r.bad = "Cancel neither wrote a request nor returned"
+			return nil, true
+		}
+	}
+	if !returned {
+		select {
+		case err = <-cdone:
+		case <-time.After(c8Timeout):
+			r.bad = "Cancel did not return although its exchange had failed"
+			return nil, true
+		}
+	}
+	if how == 'e' || how == 'w' {
+		sent = err != nil // an error stands for a failed exchange; nil can only mean that nothing had to be done
+	}
+	r.drain()
+	extra := r.takeLog()
+	return append(extra, fmt.Sprintf("CanRet %d %d", op.id, c8CanClass(err, sent))), true
+}
+
 func c8ObsCoq(op c8Op) string {
 	if !op.hasObs {
 		return "None"
@@ -865,6 +992,13 @@ func runC8Script(sc c8Script) (string, []string, bool, time.Duration, string) {
 				continue
 			}
 			evs = append(evs, fmt.Sprintf("ECancel %d %d", op.id, op.code))
+		case 'X':
+			var ok bool
+			o, ok = r.doCancelErr(op)
+			if !ok {
+				continue
+			}
+			evs = append(evs, fmt.Sprintf("ECancelErr %d", op.id))
 		}
 		if r.bad != "" {
 			break
@@ -1064,6 +1198,8 @@ func (b *c8B) note(tok []byte, seq uint32, dt int64) {
 
 func (b *c8B) cancel(id int, code int) { b.ops = append(b.ops, c8Op{kind: 'C', id: id, code: code}) }
 
+func (b *c8B) cancelErr(id int, how byte) { b.ops = append(b.ops, c8Op{kind: 'X', id: id, how: how}) }
+
 var c8Dts = []int64{0, 0, 0, 1, 20, 500, 1000, 5000, 60000, 127000, 127700, 128300, 129000, 200000, 300000}
 
 func (b *c8B) dt() int64 {
@@ -1135,7 +1271,11 @@ func c8GenSingle(rng *Rng) []c8Op {
 	}
 	for i, v := range st {
 		if i == cancelAt {
-			b.cancel(id, []int{69, 67, 132}[rng.Intn(3)])
+			if rng.Chance(25) {
+				b.cancelErr(id, []byte{'c', 'a', 'e', 'w'}[rng.Intn(4)])
+			} else {
+				b.cancel(id, []int{69, 67, 132}[rng.Intn(3)])
+			}
 		}
 		switch {
 		case rng.Chance(4):
@@ -1174,7 +1314,11 @@ func c8GenMulti(rng *Rng) []c8Op {
 			ids[i] = b.reg(toks[i], rng.Bool())
 			pendingFirst[i] = true
 		case rng.Chance(8):
-			b.cancel(ids[i], []int{69, 67, 160}[rng.Intn(3)])
+			if rng.Chance(25) {
+				b.cancelErr(ids[i], []byte{'c', 'a', 'e', 'w'}[rng.Intn(4)])
+			} else {
+				b.cancel(ids[i], []int{69, 67, 160}[rng.Intn(3)])
+			}
 			if rng.Chance(50) {
 				ids[i] = -1 // register the same token again later
 			}
@@ -1238,6 +1382,59 @@ func c8GenCancelAt(rng *Rng, pos int, code int, twice bool) []c8Op {
 		b.cancel(id, code)
 	}
 	b.note(tok, 40, 300000)
+	return b.ops
+}
+
+// Cancel whose deregistration is never answered (the server did not get it and keeps notifying):
+// Cancel returns an error, and nothing that arrives afterwards may reach the callback.
+func c8GenCancelFail(rng *Rng, how byte, variant int) []c8Op {
+	b := &c8B{rng: rng}
+	tok := c8Tok(rng, 1+rng.Intn(8))
+	switch variant {
+	case 0: // in the middle of a stream; a second Cancel has nothing left to do
+		id := b.reg(tok, rng.Bool())
+		b.note(tok, 20, 0)
+		b.note(tok, 21, 0)
+		b.cancelErr(id, how)
+		b.note(tok, 22, 0)
+		b.note(tok, 23, 1000)
+		b.cancel(id, 69)
+		b.note(tok, 24, 0)
+		b.note(tok, 25, 200000)
+	case 1: // right after the registration completed; retried with the same failure
+		id := b.reg(tok, rng.Bool())
+		b.note(tok, 7, 0)
+		b.cancelErr(id, how)
+		b.note(tok, 8, 0)
+		b.cancelErr(id, how)
+		b.note(tok, 9, 0)
+		b.raw(tok, 69, false, nil, 0) // without Observe option
+	case 2: // two observations, one of them is cancelled that way
+		t2 := c8Tok(rng, 1+rng.Intn(8))
+		a := b.reg(tok, false)
+		c := b.reg(t2, true)
+		b.note(tok, 1, 0)
+		b.note(t2, 1, 0)
+		b.note(tok, 2, 0)
+		b.cancelErr(a, how)
+		b.note(tok, 3, 0)
+		b.note(t2, 2, 0)
+		b.note(tok, 4, 0)
+		b.cancel(c, 69)
+		b.note(t2, 3, 0)
+		b.note(tok, 5, 0)
+	default: // the token is registered again afterwards: only the new callback is served
+		a := b.reg(tok, false)
+		b.note(tok, 100, 0)
+		b.cancelErr(a, how)
+		b.note(tok, 101, 0)
+		c := b.reg(tok, false)
+		b.note(tok, 50, 0)
+		b.note(tok, 51, 0)
+		b.cancelErr(c, how)
+		b.note(tok, 52, 0)
+		b.cancel(a, 69)
+	}
 	return b.ops
 }
 
@@ -1481,6 +1678,11 @@ func runC08(a runArgs) error {
 	}
 	for v := 0; v < 7; v++ {
 		all(c8GenDupToken(rng.Fork(), v), "same-token")
+	}
+	for _, how := range []byte{'c', 'a', 'e', 'w'} {
+		for v := 0; v < 4; v++ {
+			all(c8GenCancelFail(rng.Fork(), how, v), "cancel-exchange-fails")
+		}
 	}
 	for v := 0; v < 3; v++ {
 		all(c8GenCollision(rng.Fork(), v), "token-hash-collision")
